@@ -14,7 +14,8 @@ ID = "C37"
 LEAN_TARGETS = ["TornadoModel.C37.Props"]
 _T = "TornadoModel.C37."
 THEOREMS = [_T + n for n in ["fast_path_eq", "result_settled_once", "moment_yields_one_iteration",
-                             "runner_refines_native", "runner_refines_native_flat", "runner_native_prefix"]]
+                             "runner_refines_native", "runner_refines_native_flat", "runner_native_prefix",
+                             "runner_live"]]
 GOALS = []   # no principal theorem is left tie-only
 TRUSTED = [
     "asyncio Future/loop/Task abstraction of C36/Model.lean + C37/Spec.lean (Native.*): first Task step by call_soon, "
@@ -23,8 +24,11 @@ TRUSTED = [
     "flat code (try/except/finally by handler stack) and the tie checks both real forms against it",
 ]
 ASSUMPTIONS = [
-    "awaited futures complete with a result or an Exception (cancellation of an awaited future is outside this "
-    "property's statement; see docs/C37.md)",
+    "awaited futures complete with a result, an Exception or by CANCELLATION (generated and modelled: CancelledError is "
+    "thrown into the body by both drivers; fixed defect, see known_findings/C37.json).  Outcome of a coroutine = what "
+    "awaiting it delivers: a Task that ends *cancelled* and a decorated future whose exception is CancelledError are "
+    "the same outcome [e, 0].  The body itself never raises CancelledError and `except E` never catches it; "
+    "cancelling the coroutine's OWN result future / Task from outside is not generated",
     "program grammar: effect | read contextvar | set contextvar | tok = set contextvar | reset(tok) | yield future | "
     "yield list/dict of futures | yield moment/None | return v / raise gen.Return(v) | return last | raise E | "
     "try/except E/finally(effects, contextvar statements) | nested native coroutine (tie only: compared "
@@ -34,7 +38,7 @@ ASSUMPTIONS = [
     "asyncio.wrap_future): tie only, effects and outcome compared real-vs-real, timing not modelled",
     "tracebacks, GC keep-alive of Runner, BadYieldError (no native equivalent) are not compared",
 ]
-RULE = ("programs of depth <=3 (quick) / <=4 (thorough) over <=3 futures x {result, exception} x already-done "
+RULE = ("programs of depth <=3 (quick) / <=4 (thorough) over <=3 futures x {result, exception, cancelled} x already-done "
         "subsets x all completion orders x {batch, step, call_soon} tick placements; context-variable patterns "
         "(set / token / read) woven around yields of pending futures, lists and moments in ~30% of the programs; "
         "non-trivial = the body suspends at least once on a pending future/moment and both forms settle")
@@ -46,6 +50,15 @@ CLAUSES = {
                                   "runner_native_prefix (mid-run: one log is a prefix of the other, both prefixes "
                                   "of `canon`); the tie checks both real forms vs each other, vs their timed "
                                   "machines step by step, and vs `canon`",
+    "cancelled awaited futures (a completion order like any other)": "runner_refines_native / runner_native_prefix hold "
+        "for `oc f = cancelled` (both drivers throw CancelledError in; model = the code after fix ebf28f6); tie: every "
+        "program x outcome vectors with cancelled inputs, pending and already-cancelled, also inside lists and under "
+        "try/except E/finally",
+    "the decorated coroutine finishes (liveness)": "runner_live (every generator, every schedule: idle loop and not "
+        "finished => blocked on an input future that is still pending, or on an unsettled multi future, with the "
+        "wake-up registered); that a multi future with all children complete settles: C36.multi_settles for the "
+        "stand-alone machine + tie only here; oracle: decorated still pending with every input settled and the loop "
+        "idle is a violation",
     "result future settled once, generator never resumed afterwards": "result_settled_once",
     "decorator fast path = Runner.run's first send(None)": "fast_path_eq",
     "yield moment/None = one loop iteration": "moment_yields_one_iteration",
@@ -213,6 +226,18 @@ FIXED = [
     [["try", [["sub", [["yf", 0], ["raise", 42]]]], [["eff", 2]], None], ["yf", 1]],
     [["yf", 0], ["ym", "moment"], ["yl", [1, 2], False], ["ym", "none"], ["yf", 2], ["retlast"]],
 ]
+# cancellation of an awaited future: CancelledError passes `except E`, runs `finally`, can be awaited again after
+FIXED_CANCEL = [
+    [["yf", 0], ["eff", 1], ["retlast"]],
+    [["try", [["yf", 0], ["eff", 1]], [["eff", 2]], None], ["eff", 3], ["yf", 1], ["retlast"]],
+    [["try", [["yf", 0], ["eff", 1]], [["eff", 2]], [["eff", 3]]], ["eff", 4]],
+    [["try", [["yf", 0], ["eff", 1]], None, [["eff", 3], ["ctx"]]], ["eff", 4]],
+    [["try", [["try", [["yl", [0, 1], False]], [["eff", 1]], None]], None, [["eff", 2]]], ["yf", 2]],
+    [["eff", 1], ["yl", [1, 0], True], ["retlast"]],
+    [["ym", "moment"], ["yf", 1], ["ym", "none"], ["yf", 0], ["retlast"]],
+    [["tokset", 84], ["try", [["yf", 0]], None, [["tokreset"]]], ["ctx"]],
+    [["try", [["sub", [["yf", 0], ["eff", 1]]]], [["eff", 2]], [["eff", 3]]], ["yf", 1]],
+]
 # context variable written by the body around suspensions (pending future / moment / list); sampled schedules in the
 # quick tier (the all-pending start state is always among them), all schedules in the thorough tier
 FIXED_CTX = [
@@ -237,13 +262,22 @@ def _schedules(nf, outs, pre_sets, modes, nticks):
                 yield st, ops
 
 
-def _cases_for(prog, nf, rng, full):
+def _cases_for(prog, nf, rng, full, cancel_heavy=False):
     nticks = 2 * _yields(prog) + 4
-    kinds_list = list(itertools.product("re", repeat=nf))
-    if not full:
-        kinds_list = [kinds_list[rng.randrange(len(kinds_list))] for _ in range(2)]
+    kinds_list = list(itertools.product("rec", repeat=nf))
+    if full == "re":
+        # every outcome vector over {result, exception} + four with at least one CANCELLED input
+        c_list = [k for k in kinds_list if "c" in k]
+        kinds_list = [k for k in kinds_list if "c" not in k] + [c_list[rng.randrange(len(c_list))] for _ in range(4)]
+        full = True
+    elif not full:
+        # two outcome vectors over {result, exception}, one with at least one CANCELLED input
+        re_list = [k for k in kinds_list if "c" not in k]
+        c_list = [k for k in kinds_list if "c" in k]
+        kinds_list = ([re_list[rng.randrange(len(re_list))] for _ in range(1 if cancel_heavy else 2)] +
+                      [c_list[rng.randrange(len(c_list))] for _ in range(3 if cancel_heavy else 1)])
     for kinds in kinds_list:
-        outs = [[k, (10 + i) if k == "r" else (3 + i)] for i, k in enumerate(kinds)]
+        outs = [_c36._o(k, i) for i, k in enumerate(kinds)]
         pres = list(itertools.product([False, True], repeat=nf))
         if not full:
             pres = [pres[0], pres[rng.randrange(len(pres))]]
@@ -257,13 +291,15 @@ def gen_cases(rng, tier):
     depth = 3 if tier != "thorough" else 4
     if tier != "search":
         for prog in FIXED:
-            yield from _cases_for(prog, 3, rng, tier == "thorough" or not _has(prog, "try"))
+            yield from _cases_for(prog, 3, rng, True if tier == "thorough" else "re" if not _has(prog, "try") else False)
         for prog in FIXED_CTX:
             yield from _cases_for(prog, 3, rng, tier == "thorough")
+        for prog in FIXED_CANCEL:
+            yield from _cases_for(prog, 3, rng, tier == "thorough", cancel_heavy=True)
     for _ in range(nprog):
         nf = rng.randint(1, 3)
         prog = _rand_prog(rng, nf, rng.randint(1, depth))
-        yield from _cases_for(prog, nf, rng, tier == "thorough" and rng.random() < 0.3)
+        yield from _cases_for(prog, nf, rng, tier == "thorough" and rng.random() < 0.12)
     # some inputs are concurrent.futures.Future (tie only): their done-callback reaches the loop through
     # add_callback from the SETTLER's context, so the driver alone is responsible for resuming the body in the
     # coroutine's context (caller-set / body-set variables, tokens)
@@ -279,7 +315,7 @@ def gen_cases(rng, tier):
     for _ in range(nprog // 4):
         nf = rng.randint(2, 3)
         prog = _rand_body(rng, nf, 2, False, True, [0], maxlen=5)
-        outs = [[k, (10 + i) if k == "r" else (3 + i)] for i, k in enumerate(rng.choice("re") for _ in range(nf))]
+        outs = [_c36._o(k, i) for i, k in enumerate(rng.choice("reec") for _ in range(nf))]
         order = list(range(nf))
         rng.shuffle(order)
         yield {"prog": prog, "st": ["p"] * nf,
@@ -349,6 +385,8 @@ def compile_prog(prog):
                 j1 = emit(["jmp", None])
                 code[p][1] = len(code)
                 if handler is not None:
+                    # `except E:` does not catch CancelledError (a BaseException): straight to finally + re-raise
+                    ne = emit(["onlye", None])
                     if fin is not None:
                         p2 = emit(["push", None])
                     emit(["caught"])
@@ -357,10 +395,11 @@ def compile_prog(prog):
                         emit(["pop"])
                     effs(fin or [])
                     j2 = emit(["jmp", None])
+                    code[ne][1] = len(code)
                     if fin is not None:
                         code[p2][1] = len(code)
                         effs(fin)
-                        emit(["reraise"])
+                    emit(["reraise"])
                     code[j2][1] = len(code)
                 else:
                     effs(fin or [])
@@ -480,9 +519,14 @@ def _canon(v):
 
 
 def _res_state(f):
+    """the outcome as whoever awaits the coroutine sees it: a result, or the exception raised by `await`.  A Task
+    whose body let `CancelledError` escape ends *cancelled*, a decorated coroutine ends with `CancelledError` as
+    its exception: awaiting either raises `CancelledError`, so both are ["e", 0]"""
     s = _c36._state(f)
     if isinstance(s, list) and s[0] == "r":
         return ["r", _canon(s[1])]
+    if s == "c":
+        return ["e", 0]
     return s
 
 
@@ -493,8 +537,13 @@ def _run_form(case, native, lp):
     F = _mk(case["st"], case.get("cf") or [])
     T = []
     tok = CV.set(CTXVAL)
+    sync_exc = None
     try:
-        res = asyncio.ensure_future(ns["main"](F, T)) if native else ns["main"](F, T)
+        try:
+            res = asyncio.ensure_future(ns["main"](F, T)) if native else ns["main"](F, T)
+        except BaseException as e:      # calling a coroutine must never raise: the outcome belongs in its future
+            sync_exc = type(e).__name__
+            res = asyncio.Future()
         leak = CV.get() != CTXVAL     # a CV.set() inside the coroutine must not reach the caller's context
     finally:
         CV.reset(tok)
@@ -509,6 +558,7 @@ def _run_form(case, native, lp):
         tr.append([len(T), _res_state(res)])
     quiet = not lp._ready
     T_final = list(T)
+    final = [_c36._state(f) for f in F]      # before the teardown: cancelling a Task cancels the future it awaits
     if not res.done():
         res.cancel()    # native: lets the task die quietly; nothing else observes it
     left = [t for t in asyncio.all_tasks(lp) if not t.done()]
@@ -519,7 +569,8 @@ def _run_form(case, native, lp):
             lp._one_iteration()
     for f in F:
         _c36._state(f)
-    return {"trace": tr, "T": T_final, "quiet": quiet, "final": [_c36._state(f) for f in F], "leak": leak}
+    return {"trace": tr, "T": T_final, "quiet": quiet, "final": final, "leak": leak,
+            "sync_exc": sync_exc}
 
 
 def run_impl(case):
@@ -636,11 +687,17 @@ def spec_requests(case, impl):
 
 def spec_violation(case, impl, replies):
     d, n = impl["dec"], impl["nat"]
-    if not (d["quiet"] and n["quiet"]):
-        return None
+    if d.get("sync_exc"):
+        return "decorated: the call raised %s instead of returning a future" % d["sync_exc"]
     if d["cberrs"]:
         return "decorated: exception escaped to the event loop: %s" % d["cberrs"][0]
+    if not (d["quiet"] and n["quiet"]):
+        return None       # the schedule ended with callbacks still queued: final states are not comparable
     rd, rn = d["trace"][-1][1], n["trace"][-1][1]
+    # liveness: every awaited future has completed (result, exception or cancellation) and the loop is idle
+    if rd == "p" and all(s != "p" for s in d["final"]):
+        return "never finished: decorated still pending with every input %r settled and the loop idle, native %r" % (
+            d["final"], rn)
     if d["leak"] != n["leak"]:
         return "context: a variable set inside the coroutine %s the caller (native: %s)" % (
             "leaked to" if d["leak"] else "did not reach", "leaked" if n["leak"] else "isolated")
